@@ -1360,4 +1360,1223 @@ Proof.
         apply (Hnorm _ _ Ec). exact HrT.
 Qed.
 
+
+Lemma old_values_lengths : forall cols cs rows ov,
+  old_values O cs rows cols = Ok ov ->
+  forallb (fun kv : name * list V => Nat.eqb (length (snd kv)) (length rows)) ov = true.
+Proof.
+  induction cols as [|[c0 vals] rest IH]; intros cs rows ov H; cbn in H.
+  - inversion H; subst. reflexivity.
+  - destruct (find_col O cs c0) as [C0|] eqn:E0; [|discriminate].
+    destruct (old_values O cs rows rest) as [tl|] eqn:E1; cbn in H; [|discriminate].
+    inversion H; subst. cbn. rewrite map_length, Nat.eqb_refl. cbn. eapply IH. exact E1.
+Qed.
+
+Lemma undo_BulkUpdateRecord : forall s t rows cols, wf_state s -> undo_ok (BulkUpdateRecord O t rows cols) s.
+Proof.
+  intros s t rows cols Hwf s' u ops H. unfold apply_doc in H.
+  destruct (find_table O s t) as [T|] eqn:Ef; [|discriminate].
+  pose proof (find_table_id _ _ _ Ef) as Hid.
+  destruct (Hwf _ _ Ef) as [Hnd [Hnoid Hnorm]].
+  destruct (colvals_ok O rows cols) eqn:Eok; cbn [negb orb] in H; [|discriminate].
+  destruct (list_eq_dec Z.eq_dec rows []) as [Hnil|Hne]; [subst rows; discriminate|].
+  rewrite (match_nonnil _ _ rows _ _ Hne) in H.
+  destruct (all_in rows (t_rows O T)) eqn:Eall; cbn [negb] in H; [|discriminate].
+  destruct (old_values O (t_cols O T) rows cols) as [ov|] eqn:Eov; cbn [bind] in H; [|discriminate].
+  destruct (set_columns O (t_cols O T) rows cols) as [cs|] eqn:Ecs; cbn [bind] in H; [|discriminate].
+  inversion H; subst s' u ops; clear H. cbn [rev app replay_doc].
+  destruct (colvals_ok_parts _ _ Eok) as [Hndk [_ Hnoidk]].
+  destruct (old_values_spec _ _ _ _ Eov) as [Hkeys Hovget].
+  destruct (set_columns_spec _ _ _ _ Hndk Ecs) as [Hids Hspec].
+  set (T1 := mkTab O (t_id O T) (t_rows O T) cs).
+  assert (Hf1 : find_table O (put_table O s t T1) t = Some T1) by (eapply find_put_same; eassumption).
+  assert (Hok : colvals_ok O rows ov = true).
+  { unfold colvals_ok. rewrite Hkeys, Hndk, Hnoidk. rewrite (old_values_lengths _ _ _ _ Eov). reflexivity. }
+  destruct (apply_BulkUpdate_ok _ t T1 rows ov Hf1 Hok Hne Eall) as [cs2 [u' [Hcs2 Hstep]]].
+  { intros c Hc. rewrite Hkeys in Hc. unfold T1. cbn [t_cols]. specialize (Hspec c).
+    pose proof (old_values_ok_inv _ _ _ _ Eov c Hc) as Hfound.
+    destruct (find_col O (t_cols O T) c); [|contradiction]. destruct Hspec as [C' [Hf' _]]. congruence. }
+  rewrite Hstep. cbn [bind fst].
+  eexists. split; [reflexivity|].
+  assert (Hndov : nodup_names (map fst ov) = true) by (rewrite Hkeys; exact Hndk).
+  destruct (set_columns_spec _ _ _ _ Hndov Hcs2) as [_ Hspec2].
+  eapply seq_ex_put2; try eassumption; try reflexivity.
+  split; [cbn; tauto|]. intro c. cbn [t_cols t_rows T1]. specialize (Hspec c). specialize (Hspec2 c).
+  unfold T1 in Hspec2. cbn [t_cols] in Hspec2.
+  destruct (find_col O (t_cols O T) c) as [C|] eqn:Ec.
+  - destruct Hspec as [C1 [Hf1' [Hi1 Hg1]]]. rewrite Hf1' in Hspec2.
+    destruct Hspec2 as [C2 [Hf2' [Hi2 Hg2]]]. rewrite Hf2'. cbn. split; [congruence|].
+    intros r Hr. right. rewrite Hg2. unfold cell_after.
+    assert (HidC1 : c_id O C1 = c) by (eapply find_col_id; exact Hf1').
+    rewrite HidC1, Hovget, Ec, Hi1.
+    rewrite Hg1. unfold cell_after. rewrite (find_col_id _ _ _ Ec).
+    destruct (cols_get cols c) as [vals|] eqn:Eg; [|apply (venc_refl L)].
+    rewrite set_val_map. destruct (zmem r rows) eqn:Ez.
+    + apply (Hnorm _ _ Ec). exact Hr.
+    + rewrite set_val_notin by (apply zmem_false; exact Ez). apply (venc_refl L).
+  - rewrite Hspec in Hspec2. rewrite Hspec2. exact I.
+Qed.
+
+
+Definition clear_col (C : column) : column := mkCol O (c_id O C) (c_info O C) [].
+Definition cleared (T : table) : table := mkTab O (t_id O T) [] (map clear_col (t_cols O T)).
+
+Lemma apply_Replace_ok : forall s t T rows cols,
+  find_table O s t = Some T -> colvals_ok O rows cols = true ->
+  (forall c, In c (map fst cols) -> find_col O (t_cols O T) c <> None) ->
+  exists T2 u ops, add_records O (cleared T) rows cols = Ok T2 /\
+                   apply_doc O (ReplaceTableData O t rows cols) s = Ok (put_table O s t T2, (u, ops)).
+Proof.
+  intros s t T rows cols Hf Hok Hcols.
+  destruct (proj2 (add_records_ok_iff (cleared T) rows cols)) as [T2 HT2].
+  { intros c Hc. unfold cleared. cbn [t_cols]. intro Hn.
+    apply find_map_col_none in Hn; [|intro; reflexivity]. exact (Hcols c Hc Hn). }
+  exists T2. eexists. eexists. split; [exact HT2|].
+  unfold apply_doc. rewrite Hf, Hok. cbn [negb].
+  rewrite filter_all.
+  - fold clear_col. fold (cleared T). rewrite HT2. reflexivity.
+  - intros [c vs] Hin. cbn [fst]. destruct (find_col O (t_cols O T) c) eqn:E; [reflexivity|].
+    exfalso. apply (Hcols c); [|exact E]. apply in_map_iff. exists (c, vs). split; [reflexivity | exact Hin].
+Qed.
+
+Lemma undo_ReplaceTableData : forall s t rows cols, wf_state s -> undo_ok (ReplaceTableData O t rows cols) s.
+Proof.
+  intros s t rows cols Hwf s' u ops H. unfold apply_doc in H.
+  destruct (find_table O s t) as [T|] eqn:Ef; [|discriminate].
+  pose proof (find_table_id _ _ _ Ef) as Hid.
+  destruct (Hwf _ _ Ef) as [Hnd [Hnoid Hnorm]].
+  destruct (colvals_ok O rows cols) eqn:Eok; cbn [negb] in H; [|discriminate].
+  fold clear_col in H. fold (cleared T) in H.
+  set (pf := fun C : column => ci_isformula (c_info O C)) in *.
+  set (ff := fun C : column => map (col_get O C) (t_rows O T)) in *.
+  change (flat_map _ (t_cols O T)) with (subdict pf ff (t_cols O T)) in H.
+  remember (filter (fun kv : name * list V => match find_col O (t_cols O T) (fst kv) with Some _ => true | None => false end) cols) as cols1 eqn:Ecols1.
+  destruct (add_records O (cleared T) rows cols1) as [T1|] eqn:Eadd; cbn [bind] in H; [|discriminate].
+  inversion H; subst s' u ops; clear H. cbn [rev app replay_doc].
+  assert (Hnd1 : nodup_names (map fst cols1) = true).
+  { destruct (colvals_ok_parts _ _ Eok) as [Hndk _]. rewrite Ecols1. clear -Hndk.
+    induction cols as [|[c0 v0] rest IH]; cbn in *; [reflexivity|].
+    apply andb_true_iff in Hndk. destruct Hndk as [Hn Hndk].
+    destruct (find_col O (t_cols O T) c0); cbn; [|apply IH; exact Hndk].
+    rewrite (IH Hndk), andb_true_r. apply negb_true_iff. apply negb_true_iff in Hn.
+    match goal with |- nmem ?a ?b = false => destruct (nmem a b) eqn:E; [|reflexivity] end.
+    apply nmem_In in E. apply in_map_iff in E. destruct E as [[c1 v1] [Hc1 Hin]]. cbn in Hc1. subst c1.
+    apply filter_In in Hin. destruct Hin as [Hin _].
+    assert (nmem c0 (map fst rest) = true); [|congruence].
+    apply nmem_In. apply in_map_iff. exists (c0, v1). split; [reflexivity | exact Hin]. }
+  destruct (add_records_spec _ _ _ _ Hnd1 Eadd) as [Hid1 [Hrows1 [Hids1 Hcols1]]].
+  assert (Hid1' : t_id O T1 = t) by (rewrite Hid1; exact Hid).
+  assert (Hf1 : find_table O (put_table O s t T1) t = Some T1) by (eapply find_put_same; eassumption).
+  assert (HidsT1 : map (c_id O) (t_cols O T1) = map (c_id O) (t_cols O T)).
+  { rewrite Hids1. unfold cleared. cbn [t_cols]. rewrite map_map. reflexivity. }
+  assert (Hok : colvals_ok O (t_rows O T) (subdict pf ff (t_cols O T)) = true).
+  { apply subdict_ok; try assumption. intro C. apply map_length. }
+  destruct (apply_Replace_ok _ t T1 (t_rows O T) (subdict pf ff (t_cols O T)) Hf1 Hok) as [T2 [u' [ops' [Hadd2 Hstep]]]].
+  { intros c Hc. apply subdict_keys in Hc. intro Hn. apply find_col_none_notin in Hn. rewrite HidsT1 in Hn. contradiction. }
+  rewrite Hstep. cbn [bind fst].
+  eexists. split; [reflexivity|].
+  destruct (add_records_spec _ _ _ _ (subdict_nodup pf ff _ Hnd) Hadd2) as [Hid2 [Hrows2 [_ Hcols2]]].
+  eapply seq_ex_put2; try eassumption; [rewrite Hid2; unfold cleared; cbn; exact Hid1'|].
+  split.
+  - intro r. rewrite Hrows2. unfold cleared. cbn. tauto.
+  - intro c. specialize (Hcols1 c). specialize (Hcols2 c). unfold cleared in Hcols1, Hcols2. cbn [t_cols] in Hcols1, Hcols2.
+    rewrite find_map_col in Hcols1 by (intro; reflexivity). rewrite find_map_col in Hcols2 by (intro; reflexivity).
+    destruct (find_col O (t_cols O T) c) as [C|] eqn:Ec; cbn [option_map] in Hcols1.
+    + destruct Hcols1 as [C1 [Hf1' [Hi1 _]]]. rewrite Hf1' in Hcols2. cbn [option_map] in Hcols2.
+      destruct Hcols2 as [C2 [Hf2' [Hi2 Hg2]]]. rewrite Hf2'. cbn.
+      split; [rewrite Hi2; cbn; rewrite Hi1; reflexivity|].
+      intros r Hr. apply Hrows2 in Hr. unfold cleared in Hr. cbn in Hr. destruct Hr as [Hr|[]].
+      destruct (ci_isformula (c_info O C)) eqn:Eform.
+      * left. cbn. split; [reflexivity|]. exists T, C. auto.
+      * right. rewrite Hg2. unfold cell_after. cbn [clear_col c_id c_info].
+        rewrite (find_col_id _ _ _ Hf1'). rewrite subdict_get by exact Hnd. rewrite Ec. unfold pf. rewrite Eform.
+        unfold ff. rewrite set_val_map. rewrite (proj2 (zmem_In _ _) Hr).
+        rewrite Hi1. cbn [clear_col c_info]. apply (Hnorm _ _ Ec). exact Hr.
+    + rewrite Hcols1 in Hcols2. cbn in Hcols2. rewrite Hcols2. exact I.
+Qed.
+
+Theorem undo_inverse : forall a s, wf_state s -> undo_ok a s.
+Proof.
+  intros a s Hwf. destruct a.
+  - apply undo_BulkAddRecord.
+  - apply undo_BulkRemoveRecord; exact Hwf.
+  - apply undo_BulkUpdateRecord; exact Hwf.
+  - apply undo_ReplaceTableData; exact Hwf.
+  - apply undo_AddColumn.
+  - apply undo_RemoveColumn; exact Hwf.
+  - apply undo_RenameColumn; exact Hwf.
+  - apply undo_ModifyColumn; exact Hwf.
+  - apply undo_AddTable.
+  - apply undo_RemoveTable; exact Hwf.
+  - apply undo_RenameTable.
+Qed.
+
+
+(* ------------------------------------------------------------------------------------------------ *)
+(* the same doc action on equivalent documents: succeeds on both or neither, and the results are equivalent.
+   The exception set follows the cells through renames. *)
+
+Definition img (a : action) (X : cellset) : cellset :=
+  match a with
+  | RenameColumn _ t old new =>
+      fun t' c' r => (t' = t /\ c' = new /\ X t old r) \/ (~ (t' = t /\ c' = new) /\ X t' c' r)
+  | RenameTable _ old new =>
+      fun t' c' r => (t' = new /\ X old c' r) \/ (t' <> new /\ X t' c' r)
+  | _ => X
+  end.
+
+Lemma seq_ex_find : forall X s1 s2 t T1, seq_ex X s1 s2 -> find_table O s1 t = Some T1 ->
+  exists T2, find_table O s2 t = Some T2 /\ tab_rel X t T1 T2.
+Proof.
+  intros X s1 s2 t T1 H Hf. specialize (H t). rewrite Hf in H.
+  destruct (find_table O s2 t) as [T2|]; cbn in H; [eauto | contradiction].
+Qed.
+
+Lemma seq_ex_find_none : forall X s1 s2 t, seq_ex X s1 s2 -> find_table O s1 t = None -> find_table O s2 t = None.
+Proof.
+  intros X s1 s2 t H Hf. specialize (H t). rewrite Hf in H.
+  destruct (find_table O s2 t); cbn in H; [contradiction | reflexivity].
+Qed.
+
+Lemma tab_rel_find_col : forall X t T1 T2 c C1, tab_rel X t T1 T2 -> find_col O (t_cols O T1) c = Some C1 ->
+  exists C2, find_col O (t_cols O T2) c = Some C2 /\ c_info O C1 = c_info O C2 /\
+             forall r, In r (t_rows O T1) -> X t c r \/ venc O (col_get O C1 r) (col_get O C2 r) = true.
+Proof.
+  intros X t T1 T2 c C1 [_ H] Hf. specialize (H c). rewrite Hf in H.
+  destruct (find_col O (t_cols O T2) c) as [C2|]; cbn in H; [|contradiction].
+  exists C2. destruct H. auto.
+Qed.
+
+Lemma tab_rel_find_col_none : forall X t T1 T2 c, tab_rel X t T1 T2 ->
+  (find_col O (t_cols O T1) c = None <-> find_col O (t_cols O T2) c = None).
+Proof.
+  intros X t T1 T2 c [_ H]. specialize (H c).
+  destruct (find_col O (t_cols O T1) c), (find_col O (t_cols O T2) c); cbn in H; split; intro; try congruence; contradiction.
+Qed.
+
+Lemma tab_rel_has_column : forall X t T1 T2 c, tab_rel X t T1 T2 -> has_column O T1 c = has_column O T2 c.
+Proof.
+  intros X t T1 T2 c H. unfold has_column. pose proof (tab_rel_find_col_none X t T1 T2 c H) as Hn.
+  destruct (find_col O (t_cols O T1) c), (find_col O (t_cols O T2) c); try reflexivity.
+  - discriminate (proj2 Hn eq_refl).
+  - discriminate (proj1 Hn eq_refl).
+Qed.
+
+Lemma tab_rel_zmem : forall X t T1 T2 r, tab_rel X t T1 T2 -> zmem r (t_rows O T1) = zmem r (t_rows O T2).
+Proof.
+  intros X t T1 T2 r [H _]. specialize (H r).
+  destruct (zmem r (t_rows O T1)) eqn:E1, (zmem r (t_rows O T2)) eqn:E2; try reflexivity.
+  - apply zmem_In in E1. apply H in E1. apply zmem_In in E1. congruence.
+  - apply zmem_In in E2. apply H in E2. apply zmem_In in E2. congruence.
+Qed.
+
+Lemma seq_ex_put_both : forall X s1 s2 t T1 T1' T2',
+  seq_ex X s1 s2 -> find_table O s1 t = Some T1 -> t_id O T1' = t -> t_id O T2' = t ->
+  tab_rel X t T1' T2' -> seq_ex X (put_table O s1 t T1') (put_table O s2 t T2').
+Proof.
+  intros X s1 s2 t T1 T1' T2' H Hf H1 H2 Hr t0. rewrite !find_put_table by assumption.
+  name_cases t0 t.
+  - subst t0. destruct (seq_ex_find _ _ _ _ _ H Hf) as [T2 [Hf2 _]]. rewrite Hf, Hf2. exact Hr.
+  - apply H.
+Qed.
+
+Lemma keys_found_rel : forall X t T1 T2 (cols : colvals O), tab_rel X t T1 T2 ->
+  (forall c, In c (map fst cols) -> find_col O (t_cols O T1) c <> None) ->
+  (forall c, In c (map fst cols) -> find_col O (t_cols O T2) c <> None).
+Proof.
+  intros X t T1 T2 cols Hr H c Hc Hn. apply (H c Hc). apply (tab_rel_find_col_none _ _ _ _ c Hr). exact Hn.
+Qed.
+
+Lemma cong_BulkAddRecord : forall X s1 s2 t rows cols s1' o1,
+  seq_ex X s1 s2 -> apply_doc O (BulkAddRecord O t rows cols) s1 = Ok (s1', o1) ->
+  exists s2' o2, apply_doc O (BulkAddRecord O t rows cols) s2 = Ok (s2', o2) /\ seq_ex X s1' s2'.
+Proof.
+  intros X s1 s2 t rows cols s1' o1 Hs H. unfold apply_doc in H.
+  destruct (find_table O s1 t) as [T1|] eqn:Ef; [|discriminate].
+  destruct (seq_ex_find _ _ _ _ _ Hs Ef) as [T2 [Ef2 Hrel]].
+  destruct (colvals_ok O rows cols) eqn:Eok; cbn [negb orb] in H; [|discriminate].
+  destruct (list_eq_dec Z.eq_dec rows []) as [Hnil|Hne]; [subst rows; discriminate|].
+  rewrite (match_nonnil _ _ rows _ _ Hne) in H.
+  destruct (none_in rows (t_rows O T1)) eqn:Enone; cbn [negb] in H; [|discriminate].
+  destruct (add_records O T1 rows cols) as [T1'|] eqn:Eadd; cbn [bind] in H; [|discriminate].
+  inversion H; subst s1' o1; clear H.
+  destruct (colvals_ok_parts _ _ Eok) as [Hndk _].
+  assert (Hnone2 : none_in rows (t_rows O T2) = true).
+  { apply none_in_iff. intros r Hr Hin. apply (proj1 (none_in_iff _ _) Enone r Hr). apply (proj1 Hrel). exact Hin. }
+  destruct (apply_BulkAdd_ok _ t T2 rows cols Ef2 Eok Hne Hnone2) as [T2' [Eadd2 Hstep]].
+  { eapply keys_found_rel; [exact Hrel|]. exact (proj1 (add_records_ok_iff T1 rows cols) (ex_intro _ T1' Eadd)). }
+  eexists. eexists. split; [exact Hstep|].
+  destruct (add_records_spec _ _ _ _ Hndk Eadd) as [Hid1 [Hrows1 [_ Hc1]]].
+  destruct (add_records_spec _ _ _ _ Hndk Eadd2) as [Hid2 [Hrows2 [_ Hc2]]].
+  pose proof (find_table_id _ _ _ Ef). pose proof (find_table_id _ _ _ Ef2).
+  eapply seq_ex_put_both; try eassumption; try congruence.
+  split.
+  - intro r. rewrite Hrows1, Hrows2. rewrite (proj1 Hrel r). tauto.
+  - intro c. specialize (Hc1 c). specialize (Hc2 c).
+    destruct (find_col O (t_cols O T1) c) as [C1|] eqn:Ec1.
+    + destruct (tab_rel_find_col _ _ _ _ _ _ Hrel Ec1) as [C2 [Ec2 [Hinfo Hcells]]]. rewrite Ec2 in Hc2.
+      destruct Hc1 as [C1' [Hf1' [Hi1 Hg1]]]. destruct Hc2 as [C2' [Hf2' [Hi2 Hg2]]].
+      rewrite Hf1', Hf2'. cbn. split; [congruence|].
+      intros r Hr. rewrite Hg1, Hg2. unfold cell_after, add_base, col_default.
+      rewrite (find_col_id _ _ _ Ec1), (find_col_id _ _ _ Ec2). rewrite <- Hinfo.
+      destruct (cols_get cols c) as [vals|].
+      * destruct (set_val rows vals r); [right; apply (venc_refl L)|].
+        destruct (zmem r rows) eqn:Ez; [right; apply (venc_refl L)|].
+        apply Hcells. apply Hrows1 in Hr. destruct Hr as [Hr|Hr]; [|exact Hr].
+        apply zmem_In in Hr. congruence.
+      * destruct (zmem r rows) eqn:Ez; [right; apply (venc_refl L)|].
+        apply Hcells. apply Hrows1 in Hr. destruct Hr as [Hr|Hr]; [|exact Hr].
+        apply zmem_In in Hr. congruence.
+    + apply (tab_rel_find_col_none _ _ _ _ c Hrel) in Ec1 as Ec2. rewrite Ec2 in Hc2. rewrite Hc1, Hc2. exact I.
+Qed.
+
+
+Lemma filter_ext_eq : forall (A : Type) (f g : A -> bool) l, (forall x, f x = g x) -> filter f l = filter g l.
+Proof. intros A f g l H. induction l as [|x l IH]; cbn; [reflexivity|]. rewrite H, IH. reflexivity. Qed.
+
+Lemma cong_BulkRemoveRecord : forall X s1 s2 t rows s1' o1,
+  seq_ex X s1 s2 -> apply_doc O (BulkRemoveRecord O t rows) s1 = Ok (s1', o1) ->
+  exists s2' o2, apply_doc O (BulkRemoveRecord O t rows) s2 = Ok (s2', o2) /\ seq_ex X s1' s2'.
+Proof.
+  intros X s1 s2 t rows s1' o1 Hs H. unfold apply_doc in H.
+  destruct (find_table O s1 t) as [T1|] eqn:Ef; [|discriminate].
+  destruct (seq_ex_find _ _ _ _ _ Hs Ef) as [T2 [Ef2 Hrel]].
+  pose proof (find_table_id _ _ _ Ef) as Hid1. pose proof (find_table_id _ _ _ Ef2) as Hid2.
+  assert (Hfil : filter (fun r => zmem r (t_rows O T1)) rows = filter (fun r => zmem r (t_rows O T2)) rows).
+  { apply filter_ext_eq. intro r. eapply tab_rel_zmem. exact Hrel. }
+  remember (filter (fun r => zmem r (t_rows O T1)) rows) as rows1 eqn:Er1.
+  destruct (list_eq_dec Z.eq_dec rows1 []) as [Hnil|Hne].
+  - subst rows1. rewrite Hnil in H. inversion H; subst s1' o1; clear H.
+    exists s2. eexists. split; [|exact Hs]. unfold apply_doc. rewrite Ef2, <- Hfil, Hnil. reflexivity.
+  - rewrite (match_nonnil _ _ rows1 _ _ Hne) in H. inversion H; subst s1' o1; clear H.
+    eexists. eexists. split.
+    + unfold apply_doc. rewrite Ef2, <- Hfil. rewrite (match_nonnil _ _ rows1 _ _ Hne). reflexivity.
+    + eapply seq_ex_put_both; try eassumption.
+      split.
+      * intro r. cbn [t_rows]. rewrite !filter_In. rewrite (proj1 Hrel r). tauto.
+      * intro c. cbn [t_cols t_rows]. rewrite !find_map_col by (intro; apply col_unset_many_id).
+        destruct (find_col O (t_cols O T1) c) as [C1|] eqn:Ec1.
+        -- destruct (tab_rel_find_col _ _ _ _ _ _ Hrel Ec1) as [C2 [Ec2 [Hinfo Hcells]]]. rewrite Ec2. cbn.
+           split; [rewrite !col_unset_many_info; exact Hinfo|].
+           intros r Hr. apply filter_In in Hr. destruct Hr as [Hr Hz]. apply negb_true_iff in Hz.
+           rewrite !col_get_unset_many, Hz. apply Hcells. exact Hr.
+        -- apply (tab_rel_find_col_none _ _ _ _ c Hrel) in Ec1 as Ec2. rewrite Ec2. exact I.
+Qed.
+
+Lemma cong_BulkUpdateRecord : forall X s1 s2 t rows cols s1' o1,
+  seq_ex X s1 s2 -> apply_doc O (BulkUpdateRecord O t rows cols) s1 = Ok (s1', o1) ->
+  exists s2' o2, apply_doc O (BulkUpdateRecord O t rows cols) s2 = Ok (s2', o2) /\ seq_ex X s1' s2'.
+Proof.
+  intros X s1 s2 t rows cols s1' o1 Hs H. unfold apply_doc in H.
+  destruct (find_table O s1 t) as [T1|] eqn:Ef; [|discriminate].
+  destruct (seq_ex_find _ _ _ _ _ Hs Ef) as [T2 [Ef2 Hrel]].
+  pose proof (find_table_id _ _ _ Ef) as Hid1. pose proof (find_table_id _ _ _ Ef2) as Hid2.
+  destruct (colvals_ok O rows cols) eqn:Eok; cbn [negb orb] in H; [|discriminate].
+  destruct (list_eq_dec Z.eq_dec rows []) as [Hnil|Hne]; [subst rows; discriminate|].
+  rewrite (match_nonnil _ _ rows _ _ Hne) in H.
+  destruct (all_in rows (t_rows O T1)) eqn:Eall; cbn [negb] in H; [|discriminate].
+  destruct (old_values O (t_cols O T1) rows cols) as [ov|] eqn:Eov; cbn [bind] in H; [|discriminate].
+  destruct (set_columns O (t_cols O T1) rows cols) as [cs1|] eqn:Ecs; cbn [bind] in H; [|discriminate].
+  inversion H; subst s1' o1; clear H.
+  destruct (colvals_ok_parts _ _ Eok) as [Hndk _].
+  assert (Hall2 : all_in rows (t_rows O T2) = true).
+  { apply all_in_iff. intros r Hr. apply (proj1 Hrel). apply (proj1 (all_in_iff _ _) Eall). exact Hr. }
+  destruct (apply_BulkUpdate_ok _ t T2 rows cols Ef2 Eok Hne Hall2) as [cs2 [u2 [Ecs2 Hstep]]].
+  { eapply keys_found_rel; [exact Hrel|]. eapply old_values_ok_inv. exact Eov. }
+  eexists. eexists. split; [exact Hstep|].
+  destruct (set_columns_spec _ _ _ _ Hndk Ecs) as [_ Hc1].
+  destruct (set_columns_spec _ _ _ _ Hndk Ecs2) as [_ Hc2].
+  eapply seq_ex_put_both; try eassumption.
+  split; [intro r; cbn; apply (proj1 Hrel)|].
+  intro c. cbn [t_cols t_rows]. specialize (Hc1 c). specialize (Hc2 c).
+  destruct (find_col O (t_cols O T1) c) as [C1|] eqn:Ec1.
+  - destruct (tab_rel_find_col _ _ _ _ _ _ Hrel Ec1) as [C2 [Ec2 [Hinfo Hcells]]]. rewrite Ec2 in Hc2.
+    destruct Hc1 as [C1' [Hf1' [Hi1 Hg1]]]. destruct Hc2 as [C2' [Hf2' [Hi2 Hg2]]].
+    rewrite Hf1', Hf2'. cbn. split; [congruence|].
+    intros r Hr. rewrite Hg1, Hg2. unfold cell_after.
+    rewrite (find_col_id _ _ _ Ec1), (find_col_id _ _ _ Ec2). rewrite <- Hinfo.
+    destruct (cols_get cols c) as [vals|]; [|apply Hcells; exact Hr].
+    destruct (set_val rows vals r); [right; apply (venc_refl L) | apply Hcells; exact Hr].
+  - apply (tab_rel_find_col_none _ _ _ _ c Hrel) in Ec1 as Ec2. rewrite Ec2 in Hc2. rewrite Hc1, Hc2. exact I.
+Qed.
+
+Lemma cong_ReplaceTableData : forall X s1 s2 t rows cols s1' o1,
+  seq_ex X s1 s2 -> apply_doc O (ReplaceTableData O t rows cols) s1 = Ok (s1', o1) ->
+  exists s2' o2, apply_doc O (ReplaceTableData O t rows cols) s2 = Ok (s2', o2) /\ seq_ex X s1' s2'.
+Proof.
+  intros X s1 s2 t rows cols s1' o1 Hs H. unfold apply_doc in H.
+  destruct (find_table O s1 t) as [T1|] eqn:Ef; [|discriminate].
+  destruct (seq_ex_find _ _ _ _ _ Hs Ef) as [T2 [Ef2 Hrel]].
+  pose proof (find_table_id _ _ _ Ef) as Hid1. pose proof (find_table_id _ _ _ Ef2) as Hid2.
+  destruct (colvals_ok O rows cols) eqn:Eok; cbn [negb] in H; [|discriminate].
+  fold clear_col in H. fold (cleared T1) in H.
+  assert (Hfil : filter (fun kv : name * list V => match find_col O (t_cols O T1) (fst kv) with Some _ => true | None => false end) cols =
+                 filter (fun kv : name * list V => match find_col O (t_cols O T2) (fst kv) with Some _ => true | None => false end) cols).
+  { apply filter_ext_eq. intros [c vs]. cbn [fst]. pose proof (tab_rel_find_col_none _ _ _ _ c Hrel) as Hn.
+    destruct (find_col O (t_cols O T1) c), (find_col O (t_cols O T2) c); try reflexivity.
+    - discriminate (proj2 Hn eq_refl).
+    - discriminate (proj1 Hn eq_refl). }
+  remember (filter (fun kv : name * list V => match find_col O (t_cols O T1) (fst kv) with Some _ => true | None => false end) cols) as cols1 eqn:Ecols1.
+  destruct (add_records O (cleared T1) rows cols1) as [T1'|] eqn:Eadd; cbn [bind] in H; [|discriminate].
+  inversion H; subst s1' o1; clear H.
+  assert (Hnd1 : nodup_names (map fst cols1) = true).
+  { destruct (colvals_ok_parts _ _ Eok) as [Hndk _]. rewrite Ecols1. clear -Hndk.
+    induction cols as [|[c0 v0] rest IH]; cbn in *; [reflexivity|].
+    apply andb_true_iff in Hndk. destruct Hndk as [Hn Hndk].
+    destruct (find_col O (t_cols O T1) c0); cbn; [|apply IH; exact Hndk].
+    rewrite (IH Hndk), andb_true_r. apply negb_true_iff. apply negb_true_iff in Hn.
+    match goal with |- nmem ?a ?b = false => destruct (nmem a b) eqn:E; [|reflexivity] end.
+    apply nmem_In in E. apply in_map_iff in E. destruct E as [[c1 v1] [Hc1 Hin]]. cbn in Hc1. subst c1.
+    apply filter_In in Hin. destruct Hin as [Hin _].
+    assert (nmem c0 (map fst rest) = true); [|congruence].
+    apply nmem_In. apply in_map_iff. exists (c0, v1). split; [reflexivity | exact Hin]. }
+  destruct (proj2 (add_records_ok_iff (cleared T2) rows cols1)) as [T2' Eadd2].
+  { intros c Hc Hn. unfold cleared in Hn. cbn [t_cols] in Hn. apply find_map_col_none in Hn; [|intro; reflexivity].
+    apply (tab_rel_find_col_none _ _ _ _ c Hrel) in Hn.
+    pose proof (proj1 (add_records_ok_iff (cleared T1) rows cols1) (ex_intro _ T1' Eadd) c Hc) as Hf.
+    apply Hf. unfold cleared. cbn [t_cols]. apply find_map_col_none; [intro; reflexivity | exact Hn]. }
+  eexists. eexists. split.
+  { unfold apply_doc. rewrite Ef2, Eok. cbn [negb]. rewrite <- Hfil. fold clear_col. fold (cleared T2). rewrite Eadd2. reflexivity. }
+  destruct (add_records_spec _ _ _ _ Hnd1 Eadd) as [Hi1 [Hrows1 [_ Hc1]]].
+  destruct (add_records_spec _ _ _ _ Hnd1 Eadd2) as [Hi2 [Hrows2 [_ Hc2]]].
+  eapply seq_ex_put_both; try eassumption; try (unfold cleared in *; cbn in *; congruence).
+  split.
+  - intro r. rewrite Hrows1, Hrows2. unfold cleared. cbn. tauto.
+  - intro c. specialize (Hc1 c). specialize (Hc2 c). unfold cleared in Hc1, Hc2. cbn [t_cols] in Hc1, Hc2.
+    rewrite find_map_col in Hc1 by (intro; reflexivity). rewrite find_map_col in Hc2 by (intro; reflexivity).
+    destruct (find_col O (t_cols O T1) c) as [C1|] eqn:Ec1; cbn [option_map] in Hc1.
+    + destruct (tab_rel_find_col _ _ _ _ _ _ Hrel Ec1) as [C2 [Ec2 [Hinfo _]]]. rewrite Ec2 in Hc2. cbn [option_map] in Hc2.
+      destruct Hc1 as [C1' [Hf1' [Hi1' Hg1]]]. destruct Hc2 as [C2' [Hf2' [Hi2' Hg2]]].
+      rewrite Hf1', Hf2'. cbn. split; [rewrite Hi1', Hi2'; cbn; exact Hinfo|].
+      intros r Hr. right. rewrite Hg1, Hg2. unfold cell_after, add_base, col_get. cbn [clear_col c_id c_info c_data cget].
+      unfold col_default. cbn [clear_col c_info].
+      rewrite (find_col_id _ _ _ Ec1), (find_col_id _ _ _ Ec2). rewrite <- Hinfo. apply (venc_refl L).
+    + apply (tab_rel_find_col_none _ _ _ _ c Hrel) in Ec1 as Ec2. rewrite Ec2 in Hc2. cbn in Hc1, Hc2. rewrite Hc1, Hc2. exact I.
+Qed.
+
+
+Lemma cong_AddColumn : forall X s1 s2 t c info s1' o1,
+  seq_ex X s1 s2 -> apply_doc O (AddColumn O t c info) s1 = Ok (s1', o1) ->
+  exists s2' o2, apply_doc O (AddColumn O t c info) s2 = Ok (s2', o2) /\ seq_ex X s1' s2'.
+Proof.
+  intros X s1 s2 t c info s1' o1 Hs H. unfold apply_doc in H.
+  destruct (find_table O s1 t) as [T1|] eqn:Ef; [|discriminate].
+  destruct (seq_ex_find _ _ _ _ _ Hs Ef) as [T2 [Ef2 Hrel]].
+  pose proof (find_table_id _ _ _ Ef) as Hid1. pose proof (find_table_id _ _ _ Ef2) as Hid2.
+  destruct (has_column O T1 c) eqn:Eh; [discriminate|]. inversion H; subst s1' o1; clear H.
+  eexists. eexists. split.
+  { unfold apply_doc. rewrite Ef2. rewrite <- (tab_rel_has_column _ _ _ _ c Hrel), Eh. reflexivity. }
+  eapply seq_ex_put_both; try eassumption.
+  split; [intro r; cbn; apply (proj1 Hrel)|].
+  intro c0. cbn [t_cols t_rows]. rewrite !find_app_col. cbn [c_id].
+  destruct (find_col O (t_cols O T1) c0) as [C1|] eqn:Ec1.
+  - destruct (tab_rel_find_col _ _ _ _ _ _ Hrel Ec1) as [C2 [Ec2 [Hinfo Hcells]]]. rewrite Ec2. cbn. auto.
+  - apply (tab_rel_find_col_none _ _ _ _ c0 Hrel) in Ec1 as Ec2. rewrite Ec2.
+    destruct (name_eqb c0 c); cbn; [|exact I]. split; [reflexivity|]. intros r _. right. apply (venc_refl L).
+Qed.
+
+Lemma cong_RemoveColumn : forall X s1 s2 t c s1' o1,
+  seq_ex X s1 s2 -> apply_doc O (RemoveColumn O t c) s1 = Ok (s1', o1) ->
+  exists s2' o2, apply_doc O (RemoveColumn O t c) s2 = Ok (s2', o2) /\ seq_ex X s1' s2'.
+Proof.
+  intros X s1 s2 t c s1' o1 Hs H.
+  assert (Hex : exists T1 C1, find_table O s1 t = Some T1 /\ find_col O (t_cols O T1) c = Some C1).
+  { unfold apply_doc in H. destruct (find_table O s1 t) as [T1|]; [|discriminate].
+    destruct (find_col O (t_cols O T1) c) as [C1|] eqn:Ec; [|discriminate]. eauto. }
+  destruct Hex as [T1 [C1 [Ef Ec1]]].
+  destruct (seq_ex_find _ _ _ _ _ Hs Ef) as [T2 [Ef2 Hrel]].
+  destruct (tab_rel_find_col _ _ _ _ _ _ Hrel Ec1) as [C2 [Ec2 _]].
+  pose proof (find_table_id _ _ _ Ef) as Hid1. pose proof (find_table_id _ _ _ Ef2) as Hid2.
+  destruct (apply_RemoveColumn_state _ _ _ _ _ Ef Ec1) as [u1 [ops1 H1]].
+  destruct (apply_RemoveColumn_state _ _ _ _ _ Ef2 Ec2) as [u2 [ops2 H2]].
+  rewrite H1 in H. inversion H; subst s1' o1; clear H.
+  eexists. eexists. split; [exact H2|].
+  eapply seq_ex_put_both; try eassumption.
+  split; [intro r; cbn; apply (proj1 Hrel)|].
+  intro c0. cbn [t_cols t_rows]. rewrite !find_drop_col. destruct (name_eqb c0 c); [exact I | apply (proj2 Hrel)].
+Qed.
+
+Lemma cong_RenameColumn : forall X s1 s2 t old new s1' o1,
+  seq_ex X s1 s2 -> apply_doc O (RenameColumn O t old new) s1 = Ok (s1', o1) ->
+  exists s2' o2, apply_doc O (RenameColumn O t old new) s2 = Ok (s2', o2) /\
+                 seq_ex (img (RenameColumn O t old new) X) s1' s2'.
+Proof.
+  intros X s1 s2 t old new s1' o1 Hs H. unfold apply_doc in H.
+  destruct (find_table O s1 t) as [T1|] eqn:Ef; [|discriminate].
+  destruct (seq_ex_find _ _ _ _ _ Hs Ef) as [T2 [Ef2 Hrel]].
+  pose proof (find_table_id _ _ _ Ef) as Hid1. pose proof (find_table_id _ _ _ Ef2) as Hid2.
+  destruct (find_col O (t_cols O T1) old) as [C1|] eqn:Ec1; [|discriminate].
+  destruct (tab_rel_find_col _ _ _ _ _ _ Hrel Ec1) as [C2 [Ec2 [Hinfo Hcells]]].
+  destruct (has_column O T1 new) eqn:Eh; [discriminate|]. inversion H; subst s1' o1; clear H.
+  eexists. eexists. split.
+  { unfold apply_doc. rewrite Ef2, Ec2. rewrite <- (tab_rel_has_column _ _ _ _ new Hrel), Eh. reflexivity. }
+  apply has_column_false in Eh. destruct Eh as [_ Hnew].
+  assert (Hne : old <> new) by (intro; subst; congruence).
+  intro t0. rewrite !find_put_table by assumption. name_cases t0 t.
+  - subst t0. rewrite Ef, Ef2. cbn [otab_rel]. split; [intro r; cbn; apply (proj1 Hrel)|].
+    intro c0. cbn [t_cols t_rows]. rewrite !find_app_col, !find_drop_col. cbn [c_id].
+    name_cases c0 old.
+    + subst c0. assert (name_eqb old new = false) as -> by (apply name_eqb_neq; exact Hne). exact I.
+    + destruct (find_col O (t_cols O T1) c0) as [D1|] eqn:Ed1.
+      * destruct (tab_rel_find_col _ _ _ _ _ _ Hrel Ed1) as [D2 [Ed2 [Hinfo' Hcells']]]. rewrite Ed2. cbn.
+        split; [exact Hinfo'|]. intros r Hr. destruct (Hcells' r Hr) as [Hx|Hx]; [|right; exact Hx].
+        left. right. split; [|exact Hx]. intros [_ Hc]. subst c0. congruence.
+      * apply (tab_rel_find_col_none _ _ _ _ c0 Hrel) in Ed1 as Ed2. rewrite Ed2.
+        name_cases c0 new; [|exact I]. subst c0. cbn. split; [exact Hinfo|].
+        intros r Hr. unfold col_get, col_default in *. cbn [c_data c_info].
+        destruct (Hcells r Hr) as [Hx|Hx]; [left; left; auto | right; rewrite <- Hinfo; rewrite <- Hinfo in Hx; exact Hx].
+  - specialize (Hs t0). destruct (find_table O s1 t0), (find_table O s2 t0); cbn in *; try tauto.
+    eapply tab_rel_weaken; [|exact Hs]. intros c r Hx. right. split; [|exact Hx]. intros [Ht _]. contradiction.
+Qed.
+
+
+Lemma cong_ModifyColumn : forall X s1 s2 t c m s1' o1,
+  seq_ex X s1 s2 -> apply_doc O (ModifyColumn O t c m) s1 = Ok (s1', o1) ->
+  exists s2' o2, apply_doc O (ModifyColumn O t c m) s2 = Ok (s2', o2) /\ seq_ex X s1' s2'.
+Proof.
+  intros X s1 s2 t c m s1' o1 Hs H. unfold apply_doc in H.
+  destruct (find_table O s1 t) as [T1|] eqn:Ef; [|discriminate].
+  destruct (seq_ex_find _ _ _ _ _ Hs Ef) as [T2 [Ef2 Hrel]].
+  pose proof (find_table_id _ _ _ Ef) as Hid1. pose proof (find_table_id _ _ _ Ef2) as Hid2.
+  destruct (find_col O (t_cols O T1) c) as [C1|] eqn:Ec1; [|discriminate].
+  destruct (tab_rel_find_col _ _ _ _ _ _ Hrel Ec1) as [C2 [Ec2 [Hinfo Hcells]]].
+  destruct (colinfo_eqb (apply_modinfo m (c_info O C1)) (c_info O C1)) eqn:Eeq.
+  - inversion H; subst s1' o1; clear H. exists s2. eexists. split; [|exact Hs].
+    unfold apply_doc. rewrite Ef2, Ec2, <- Hinfo, Eeq. reflexivity.
+  - inversion H; subst s1' o1; clear H. eexists. eexists. split.
+    { unfold apply_doc. rewrite Ef2, Ec2, <- Hinfo, Eeq. reflexivity. }
+    eapply seq_ex_put_both; try eassumption.
+    split; [intro r; cbn; apply (proj1 Hrel)|].
+    intro c0. cbn [t_cols t_rows]. rewrite !find_app_col, !find_drop_col. rewrite !col_set_many_id. cbn [c_id].
+    name_cases c0 c.
+    + subst c0. cbn. split; [rewrite !col_set_many_info; reflexivity|].
+      intros r Hr. rewrite !col_get_set_many, !set_val_map. cbn [c_info].
+      rewrite <- (tab_rel_zmem _ _ _ _ r Hrel). rewrite (proj2 (zmem_In _ _) Hr).
+      destruct (Hcells r Hr) as [Hx|Hx]; [left; exact Hx | right; apply (vnorm_enc L); exact Hx].
+    + destruct (find_col O (t_cols O T1) c0) as [D1|] eqn:Ed1.
+      * destruct (tab_rel_find_col _ _ _ _ _ _ Hrel Ed1) as [D2 [Ed2 [Hinfo' Hcells']]]. rewrite Ed2. cbn. auto.
+      * apply (tab_rel_find_col_none _ _ _ _ c0 Hrel) in Ed1 as Ed2. rewrite Ed2. exact I.
+Qed.
+
+Lemma cong_AddTable : forall X s1 s2 t cols s1' o1,
+  seq_ex X s1 s2 -> apply_doc O (AddTable O t cols) s1 = Ok (s1', o1) ->
+  exists s2' o2, apply_doc O (AddTable O t cols) s2 = Ok (s2', o2) /\ seq_ex X s1' s2'.
+Proof.
+  intros X s1 s2 t cols s1' o1 Hs H. unfold apply_doc in H.
+  destruct (find_table O s1 t) eqn:Ef; [discriminate|].
+  pose proof (seq_ex_find_none _ _ _ _ Hs Ef) as Ef2.
+  destruct (negb (nodup_names (map fst cols)) || nmem id_name (map fst cols)) eqn:Ed; [discriminate|].
+  inversion H; subst s1' o1; clear H. eexists. eexists. split.
+  { unfold apply_doc. rewrite Ef2, Ed. reflexivity. }
+  intro t0. rewrite !find_app_table. cbn [t_id]. specialize (Hs t0).
+  destruct (find_table O s1 t0), (find_table O s2 t0); cbn in *; try tauto.
+  destruct (name_eqb t0 t); cbn; [apply tab_rel_refl | exact I].
+Qed.
+
+Lemma cong_RemoveTable : forall X s1 s2 t s1' o1,
+  seq_ex X s1 s2 -> apply_doc O (RemoveTable O t) s1 = Ok (s1', o1) ->
+  exists s2' o2, apply_doc O (RemoveTable O t) s2 = Ok (s2', o2) /\ seq_ex X s1' s2'.
+Proof.
+  intros X s1 s2 t s1' o1 Hs H. unfold apply_doc in H.
+  destruct (find_table O s1 t) as [T1|] eqn:Ef; [|discriminate].
+  destruct (seq_ex_find _ _ _ _ _ Hs Ef) as [T2 [Ef2 Hrel]].
+  assert (s1' = drop_table O s1 t) by (destruct (t_rows O T1); inversion H; reflexivity). subst s1'.
+  assert (Hex : exists o2, apply_doc O (RemoveTable O t) s2 = Ok (drop_table O s2 t, o2)).
+  { unfold apply_doc. rewrite Ef2. destruct (t_rows O T2); eexists; reflexivity. }
+  destruct Hex as [o2 Ho2]. exists (drop_table O s2 t), o2. split; [exact Ho2|].
+  intro t0. rewrite !find_drop_table. destruct (name_eqb t0 t); [exact I | apply Hs].
+Qed.
+
+Lemma cong_RenameTable : forall X s1 s2 old new s1' o1,
+  seq_ex X s1 s2 -> apply_doc O (RenameTable O old new) s1 = Ok (s1', o1) ->
+  exists s2' o2, apply_doc O (RenameTable O old new) s2 = Ok (s2', o2) /\
+                 seq_ex (img (RenameTable O old new) X) s1' s2'.
+Proof.
+  intros X s1 s2 old new s1' o1 Hs H. unfold apply_doc in H.
+  destruct (find_table O s1 old) as [T1|] eqn:Ef; [|discriminate].
+  destruct (seq_ex_find _ _ _ _ _ Hs Ef) as [T2 [Ef2 Hrel]].
+  destruct (find_table O s1 new) eqn:En; [discriminate|].
+  pose proof (seq_ex_find_none _ _ _ _ Hs En) as En2.
+  inversion H; subst s1' o1; clear H. eexists. eexists. split.
+  { unfold apply_doc. rewrite Ef2, En2. reflexivity. }
+  assert (Hne : old <> new) by (intro; subst; congruence).
+  intro t0. rewrite !find_app_table, !find_drop_table. cbn [t_id].
+  name_cases t0 old.
+  - subst t0. assert (name_eqb old new = false) as -> by (apply name_eqb_neq; exact Hne). exact I.
+  - specialize (Hs t0). destruct (find_table O s1 t0) as [U1|] eqn:Eu1, (find_table O s2 t0) as [U2|] eqn:Eu2; cbn in Hs; try tauto.
+    + cbn. eapply tab_rel_weaken; [|exact Hs]. intros c r Hx. right. split; [|exact Hx]. intro; subst; congruence.
+    + name_cases t0 new; [|exact I]. subst t0. cbn.
+      destruct Hrel as [Hrows Hcols]. split; [exact Hrows|]. intro c. cbn [t_cols t_rows].
+      specialize (Hcols c). destruct (find_col O (t_cols O T1) c), (find_col O (t_cols O T2) c); cbn in *; try tauto.
+      destruct Hcols as [Hi Hc]. split; [exact Hi|]. intros r Hr. destruct (Hc r Hr); [left; left; auto | right; assumption].
+Qed.
+
+Theorem apply_doc_cong : forall a X s1 s2 s1' o1,
+  seq_ex X s1 s2 -> apply_doc O a s1 = Ok (s1', o1) ->
+  exists s2' o2, apply_doc O a s2 = Ok (s2', o2) /\ seq_ex (img a X) s1' s2'.
+Proof.
+  intros a X s1 s2 s1' o1 Hs H. destruct a; cbn [img].
+  - eapply cong_BulkAddRecord; eassumption.
+  - eapply cong_BulkRemoveRecord; eassumption.
+  - eapply cong_BulkUpdateRecord; eassumption.
+  - eapply cong_ReplaceTableData; eassumption.
+  - eapply cong_AddColumn; eassumption.
+  - eapply cong_RemoveColumn; eassumption.
+  - eapply cong_RenameColumn; eassumption.
+  - eapply cong_ModifyColumn; eassumption.
+  - eapply cong_AddTable; eassumption.
+  - eapply cong_RemoveTable; eassumption.
+  - eapply cong_RenameTable; eassumption.
+Qed.
+
+Fixpoint img_list (acts : list action) (X : cellset) : cellset :=
+  match acts with
+  | [] => X
+  | a :: rest => img_list rest (img a X)
+  end.
+
+Lemma replay_doc_cong : forall acts X s1 s2 s1',
+  seq_ex X s1 s2 -> replay_doc O acts s1 = Ok s1' ->
+  exists s2', replay_doc O acts s2 = Ok s2' /\ seq_ex (img_list acts X) s1' s2'.
+Proof.
+  induction acts as [|a rest IH]; intros X s1 s2 s1' Hs H; cbn in *.
+  - inversion H; subst. eauto.
+  - destruct (apply_doc O a s1) as [[sa oa]|] eqn:Ea; cbn in H; [|discriminate].
+    destruct (apply_doc_cong _ _ _ _ _ _ Hs Ea) as [sb [ob [Eb Hsb]]]. rewrite Eb. cbn.
+    eapply IH; eassumption.
+Qed.
+
+Lemma img_empty : forall a (Y : cellset), (forall t c r, Y t c r -> False) -> forall t c r, img a Y t c r -> False.
+Proof.
+  intros a Y HY t c r H. destruct a; cbn in H; try (eapply HY; exact H);
+    destruct H as [H|H]; decompose [and] H; eapply HY; eassumption.
+Qed.
+
+Lemma img_list_empty : forall acts (Y : cellset),
+  (forall t c r, Y t c r -> False) -> forall t c r, img_list acts Y t c r -> False.
+Proof.
+  induction acts as [|a rest IH]; intros Y HY t c r H; cbn in H; [eapply HY; exact H|].
+  eapply (IH (img a Y)); [apply img_empty; exact HY | exact H].
+Qed.
+
+Lemma replay_doc_cong_seq : forall acts s1 s2 s1',
+  seq s1 s2 -> replay_doc O acts s1 = Ok s1' -> exists s2', replay_doc O acts s2 = Ok s2' /\ seq s1' s2'.
+Proof.
+  intros acts s1 s2 s1' Hs H. destruct (replay_doc_cong _ _ _ _ _ Hs H) as [s2' [H2 Hs2]].
+  exists s2'. split; [exact H2|]. eapply seq_ex_weaken; [|exact Hs2].
+  intros t c r Hx. exfalso. eapply img_list_empty; [|exact Hx]. intros ? ? ? [].
+Qed.
+
+Lemma replay_doc_app : forall l1 l2 s,
+  replay_doc O (l1 ++ l2) s = match replay_doc O l1 s with Ok s1 => replay_doc O l2 s1 | Err e => Err e end.
+Proof.
+  induction l1 as [|a l1 IH]; intros l2 s; cbn; [reflexivity|].
+  destruct (apply_doc O a s) as [[sa oa]|]; cbn; [apply IH | reflexivity].
+Qed.
+
+
+(* ------------------------------------------------------------------------------------------------ *)
+(* doc actions keep documents well formed *)
+
+Lemma nmem_app : forall x l1 l2, nmem x (l1 ++ l2) = nmem x l1 || nmem x l2.
+Proof. intros x l1 l2. induction l1 as [|y l1 IH]; cbn; [reflexivity|]. destruct (name_eqb x y); [reflexivity | exact IH]. Qed.
+
+Lemma nodup_names_snoc : forall l x, nodup_names (l ++ [x]) = nodup_names l && negb (nmem x l).
+Proof.
+  induction l as [|y l IH]; intro x; cbn; [reflexivity|].
+  rewrite IH, nmem_app. cbn. rewrite (name_eqb_sym x y).
+  destruct (nmem y l), (name_eqb y x), (nodup_names l), (nmem x l); reflexivity.
+Qed.
+
+Lemma drop_col_ids : forall cs c,
+  map (c_id O) (drop_col O cs c) = filter (fun x => negb (name_eqb c x)) (map (c_id O) cs).
+Proof.
+  induction cs as [|C0 cs IH]; intro c; cbn; [reflexivity|].
+  destruct (name_eqb c (c_id O C0)); cbn; [apply IH | rewrite IH; reflexivity].
+Qed.
+
+Lemma nmem_filter : forall (f : name -> bool) x l, nmem x (filter f l) = true -> nmem x l = true.
+Proof.
+  intros f x l H. apply nmem_In in H. apply filter_In in H. apply nmem_In. apply H.
+Qed.
+
+Lemma nodup_names_filter : forall (f : name -> bool) l, nodup_names l = true -> nodup_names (filter f l) = true.
+Proof.
+  intros f l. induction l as [|y l IH]; cbn; [reflexivity|]. intro H.
+  apply andb_true_iff in H. destruct H as [Hn Hnd]. destruct (f y); cbn; [|apply IH; exact Hnd].
+  rewrite (IH Hnd), andb_true_r. apply negb_true_iff. apply negb_true_iff in Hn.
+  destruct (nmem y (filter f l)) eqn:E; [|reflexivity]. apply nmem_filter in E. congruence.
+Qed.
+
+Lemma nmem_false_filter : forall (f : name -> bool) x l, nmem x l = false -> nmem x (filter f l) = false.
+Proof.
+  intros f x l H. destruct (nmem x (filter f l)) eqn:E; [|reflexivity]. apply nmem_filter in E. congruence.
+Qed.
+
+Lemma nmem_drop_self : forall cs c, nmem c (map (c_id O) (drop_col O cs c)) = false.
+Proof.
+  intros cs c. rewrite drop_col_ids. destruct (nmem c (filter _ _)) eqn:E; [|reflexivity].
+  apply nmem_In in E. apply filter_In in E. destruct E as [_ E]. rewrite name_eqb_refl in E. discriminate.
+Qed.
+
+Definition normal_at (ty : name) (v : V) : Prop := venc O (vnorm O ty v) v = true.
+
+Lemma cell_after_normal : forall rows cols C base r,
+  normal_at (ci_type (c_info O C)) (base r) ->
+  normal_at (ci_type (c_info O C)) (cell_after rows cols C base r).
+Proof.
+  intros rows cols C base r Hb. unfold cell_after, normal_at in *.
+  destruct (cols_get cols (c_id O C)); [|exact Hb].
+  destruct (set_val rows l r); [apply (vnorm_idem L) | exact Hb].
+Qed.
+
+Lemma norm_default_normal : forall ty, normal_at ty (vnorm O ty (vdefault O ty)).
+Proof. intro ty. apply (vnorm_idem L). Qed.
+
+Lemma default_normal : forall ty, normal_at ty (vdefault O ty).
+Proof. intro ty. apply (vnorm_default L). Qed.
+
+Lemma wf_state_put : forall s t T', wf_state s -> t_id O T' = t -> wf_table T' -> wf_state (put_table O s t T').
+Proof.
+  intros s t T' Hwf Hid HT t0 T0 Hf. rewrite find_put_table in Hf by exact Hid.
+  destruct (name_eqb t0 t).
+  - destruct (find_table O s t); inversion Hf; subst. exact HT.
+  - eapply Hwf. exact Hf.
+Qed.
+
+Lemma wf_add_records : forall T rows cols T',
+  wf_table T -> nodup_names (map fst cols) = true -> add_records O T rows cols = Ok T' -> wf_table T'.
+Proof.
+  intros T rows cols T' [Hnd [Hnoid Hnorm]] Hndk Hadd.
+  destruct (add_records_spec _ _ _ _ Hndk Hadd) as [_ [Hrows [Hids Hcols]]].
+  split; [rewrite Hids; exact Hnd|]. split; [rewrite Hids; exact Hnoid|].
+  intros c C' Hf r Hr. specialize (Hcols c).
+  destruct (find_col O (t_cols O T) c) as [C|] eqn:Ec; [|congruence].
+  destruct Hcols as [C'' [Hf'' [Hi Hg]]]. assert (C'' = C') by congruence. subst C''.
+  rewrite Hg, Hi. apply cell_after_normal. unfold add_base.
+  destruct (zmem r rows) eqn:Ez; [apply norm_default_normal|].
+  apply (Hnorm _ _ Ec). apply Hrows in Hr. destruct Hr as [Hr|Hr]; [|exact Hr].
+  apply zmem_In in Hr. congruence.
+Qed.
+
+Lemma wf_cleared : forall T, wf_table T -> wf_table (cleared T).
+Proof.
+  intros T [Hnd [Hnoid _]]. unfold wf_table, cleared. cbn [t_cols t_rows].
+  assert (map (c_id O) (map clear_col (t_cols O T)) = map (c_id O) (t_cols O T)) as Hids by (rewrite map_map; reflexivity).
+  split; [rewrite Hids; exact Hnd|]. split; [rewrite Hids; exact Hnoid|]. intros c C Hf r [].
+Qed.
+
+Theorem apply_doc_wf : forall a s s' o, wf_state s -> apply_doc O a s = Ok (s', o) -> wf_state s'.
+Proof.
+  intros a s s' o Hwf H. destruct a; unfold apply_doc in H.
+  - (* BulkAddRecord *)
+    destruct (find_table O s t) as [T|] eqn:Ef; [|discriminate].
+    destruct (colvals_ok O rows cols) eqn:Eok; cbn [negb orb] in H; [|discriminate].
+    destruct rows as [|r0 rows0] eqn:Er; [discriminate|]. rewrite <- Er in *. clear Er.
+    destruct (none_in rows (t_rows O T)); cbn [negb] in H; [|discriminate].
+    destruct (add_records O T rows cols) as [T'|] eqn:Eadd; cbn [bind] in H; [|discriminate].
+    inversion H; subst. destruct (colvals_ok_parts _ _ Eok) as [Hndk _].
+    destruct (add_records_spec _ _ _ _ Hndk Eadd) as [Hid _].
+    apply wf_state_put; [exact Hwf | rewrite Hid; cbn [t_id]; exact (find_table_id _ _ _ Ef) |].
+    eapply wf_add_records; [eapply Hwf; exact Ef | exact Hndk | exact Eadd].
+  - (* BulkRemoveRecord *)
+    destruct (find_table O s t) as [T|] eqn:Ef; [|discriminate].
+    destruct (filter (fun r => zmem r (t_rows O T)) rows) as [|r0 rows0] eqn:Er.
+    + inversion H; subst. exact Hwf.
+    + rewrite <- Er in *. inversion H; subst. clear H.
+      destruct (Hwf _ _ Ef) as [Hnd [Hnoid Hnorm]].
+      apply wf_state_put; [exact Hwf | cbn [t_id]; exact (find_table_id _ _ _ Ef) |].
+      cbn. assert (map (c_id O) (map (fun C => col_unset_many O C (filter (fun r => zmem r (t_rows O T)) rows)) (t_cols O T)) = map (c_id O) (t_cols O T)) as Hids.
+      { rewrite map_map. apply map_ext. intro C. apply col_unset_many_id. }
+      split; [cbn; rewrite Hids; exact Hnd|]. split; [cbn; rewrite Hids; exact Hnoid|].
+      cbn [t_cols t_rows]. intros c C' Hf r Hr. rewrite find_map_col in Hf by (intro; apply col_unset_many_id).
+      destruct (find_col O (t_cols O T) c) as [C|] eqn:Ec; cbn in Hf; [|discriminate]. inversion Hf; subst C'.
+      apply filter_In in Hr. destruct Hr as [Hr Hz]. apply negb_true_iff in Hz.
+      rewrite col_get_unset_many, Hz, col_unset_many_info. apply (Hnorm _ _ Ec). exact Hr.
+  - (* BulkUpdateRecord *)
+    destruct (find_table O s t) as [T|] eqn:Ef; [|discriminate].
+    destruct (colvals_ok O rows cols) eqn:Eok; cbn [negb orb] in H; [|discriminate].
+    destruct rows as [|r0 rows0] eqn:Er; [discriminate|]. rewrite <- Er in *. clear Er.
+    destruct (all_in rows (t_rows O T)); cbn [negb] in H; [|discriminate].
+    destruct (old_values O (t_cols O T) rows cols) as [ov|]; cbn [bind] in H; [|discriminate].
+    destruct (set_columns O (t_cols O T) rows cols) as [cs|] eqn:Ecs; cbn [bind] in H; [|discriminate].
+    inversion H; subst. clear H. destruct (colvals_ok_parts _ _ Eok) as [Hndk _].
+    destruct (Hwf _ _ Ef) as [Hnd [Hnoid Hnorm]].
+    destruct (set_columns_spec _ _ _ _ Hndk Ecs) as [Hids Hcols].
+    apply wf_state_put; [exact Hwf | cbn [t_id]; exact (find_table_id _ _ _ Ef) |].
+    split; [cbn; rewrite Hids; exact Hnd|]. split; [cbn; rewrite Hids; exact Hnoid|].
+    cbn [t_cols t_rows]. intros c C' Hf r Hr. specialize (Hcols c).
+    destruct (find_col O (t_cols O T) c) as [C|] eqn:Ec; [|congruence].
+    destruct Hcols as [C'' [Hf'' [Hi Hg]]]. assert (C'' = C') by congruence. subst C''.
+    rewrite Hg, Hi. apply cell_after_normal. apply (Hnorm _ _ Ec). exact Hr.
+  - (* ReplaceTableData *)
+    destruct (find_table O s t) as [T|] eqn:Ef; [|discriminate].
+    destruct (colvals_ok O rows cols) eqn:Eok; cbn [negb] in H; [|discriminate].
+    fold clear_col in H. fold (cleared T) in H.
+    match type of H with context [add_records O (cleared T) rows ?cc] => remember cc as cols1 eqn:Ecols1 end.
+    destruct (add_records O (cleared T) rows cols1) as [T'|] eqn:Eadd; cbn [bind] in H; [|discriminate].
+    inversion H; subst s' o. clear H.
+    assert (Hnd1 : nodup_names (map fst cols1) = true).
+    { destruct (colvals_ok_parts _ _ Eok) as [Hndk _]. rewrite Ecols1. clear -Hndk.
+      induction cols as [|[c0 v0] rest IH]; cbn in *; [reflexivity|].
+      apply andb_true_iff in Hndk. destruct Hndk as [Hn Hndk].
+      destruct (find_col O (t_cols O T) c0); cbn; [|apply IH; exact Hndk].
+      rewrite (IH Hndk), andb_true_r. apply negb_true_iff. apply negb_true_iff in Hn.
+      match goal with |- nmem ?a ?b = false => destruct (nmem a b) eqn:E; [|reflexivity] end.
+      apply nmem_In in E. apply in_map_iff in E. destruct E as [[c1 v1] [Hc1 Hin]]. cbn in Hc1. subst c1.
+      apply filter_In in Hin. destruct Hin as [Hin _].
+      assert (nmem c0 (map fst rest) = true); [|congruence].
+      apply nmem_In. apply in_map_iff. exists (c0, v1). split; [reflexivity | exact Hin]. }
+    destruct (add_records_spec _ _ _ _ Hnd1 Eadd) as [Hid _].
+    apply wf_state_put; [exact Hwf | rewrite Hid; unfold cleared; cbn; cbn [t_id]; exact (find_table_id _ _ _ Ef) |].
+    eapply wf_add_records; [apply wf_cleared; eapply Hwf; exact Ef | exact Hnd1 | exact Eadd].
+  - (* AddColumn *)
+    destruct (find_table O s t) as [T|] eqn:Ef; [|discriminate].
+    destruct (has_column O T c) eqn:Eh; [discriminate|]. inversion H; subst. clear H.
+    apply has_column_false in Eh. destruct Eh as [Hcid Hcn].
+    destruct (Hwf _ _ Ef) as [Hnd [Hnoid Hnorm]].
+    apply wf_state_put; [exact Hwf | cbn [t_id]; exact (find_table_id _ _ _ Ef) |].
+    split; [cbn [t_cols]; rewrite map_app; cbn [map c_id]; rewrite nodup_names_snoc, Hnd; cbn;
+            apply negb_true_iff; destruct (nmem c (map (c_id O) (t_cols O T))) eqn:E; [|reflexivity];
+            apply nmem_In in E; apply find_col_none_notin in Hcn; contradiction|].
+    split; [cbn [t_cols]; rewrite map_app, nmem_app, Hnoid; cbn [map c_id nmem orb];
+            assert (name_eqb id_name c = false) as -> by (apply name_eqb_neq; congruence); reflexivity|].
+    cbn [t_cols t_rows]. intros c0 C' Hf r Hr. rewrite find_app_col in Hf.
+    destruct (find_col O (t_cols O T) c0) as [C|] eqn:Ec.
+    + inversion Hf; subst C'. apply (Hnorm _ _ Ec). exact Hr.
+    + cbn [c_id] in Hf. destruct (name_eqb c0 c); inversion Hf; subst C'.
+      unfold col_get, col_default. cbn. apply default_normal.
+  - (* RemoveColumn *)
+    destruct (find_table O s t) as [T|] eqn:Ef; [|discriminate].
+    destruct (find_col O (t_cols O T) c) as [C|] eqn:Ec; [|discriminate].
+    destruct (apply_RemoveColumn_state _ _ _ _ _ Ef Ec) as [u' [ops' Hst]].
+    unfold apply_doc in Hst. rewrite Ef, Ec in Hst. rewrite Hst in H. inversion H; subst. clear H Hst.
+    destruct (Hwf _ _ Ef) as [Hnd [Hnoid Hnorm]].
+    apply wf_state_put; [exact Hwf | cbn [t_id]; exact (find_table_id _ _ _ Ef) |].
+    split; [cbn [t_cols]; rewrite drop_col_ids; apply nodup_names_filter; exact Hnd|].
+    split; [cbn [t_cols]; rewrite drop_col_ids; apply nmem_false_filter; exact Hnoid|].
+    cbn [t_cols t_rows]. intros c0 C' Hf r Hr. rewrite find_drop_col in Hf.
+    destruct (name_eqb c0 c); [discriminate|]. apply (Hnorm _ _ Hf). exact Hr.
+  - (* RenameColumn *)
+    destruct (find_table O s t) as [T|] eqn:Ef; [|discriminate].
+    destruct (find_col O (t_cols O T) old) as [C|] eqn:Ec; [|discriminate].
+    destruct (has_column O T new) eqn:Eh; [discriminate|]. inversion H; subst. clear H.
+    apply has_column_false in Eh. destruct Eh as [Hcid Hcn].
+    destruct (Hwf _ _ Ef) as [Hnd [Hnoid Hnorm]].
+    apply wf_state_put; [exact Hwf | cbn [t_id]; exact (find_table_id _ _ _ Ef) |].
+    split; [cbn [t_cols]; rewrite map_app; cbn [map c_id]; rewrite nodup_names_snoc, drop_col_ids;
+            rewrite nodup_names_filter by exact Hnd; cbn; apply negb_true_iff; apply nmem_false_filter;
+            destruct (nmem new (map (c_id O) (t_cols O T))) eqn:E; [|reflexivity];
+            apply nmem_In in E; apply find_col_none_notin in Hcn; contradiction|].
+    split; [cbn [t_cols]; rewrite map_app, nmem_app, drop_col_ids; rewrite nmem_false_filter by exact Hnoid; cbn [map c_id nmem orb];
+            assert (name_eqb id_name new = false) as -> by (apply name_eqb_neq; congruence); reflexivity|].
+    cbn [t_cols t_rows]. intros c0 C' Hf r Hr. rewrite find_app_col, find_drop_col in Hf.
+    destruct (name_eqb c0 old) eqn:E0.
+    + cbn [c_id] in Hf. destruct (name_eqb c0 new); inversion Hf; subst C'.
+      unfold col_get, col_default. cbn [c_data c_info]. apply (Hnorm _ _ Ec r Hr).
+    + destruct (find_col O (t_cols O T) c0) as [C0|] eqn:Ec0.
+      * inversion Hf; subst C'. apply (Hnorm _ _ Ec0). exact Hr.
+      * cbn [c_id] in Hf. destruct (name_eqb c0 new); inversion Hf; subst C'.
+        unfold col_get, col_default. cbn [c_data c_info]. apply (Hnorm _ _ Ec r Hr).
+  - (* ModifyColumn *)
+    destruct (find_table O s t) as [T|] eqn:Ef; [|discriminate].
+    destruct (find_col O (t_cols O T) c) as [C|] eqn:Ec; [|discriminate].
+    destruct (colinfo_eqb (apply_modinfo m (c_info O C)) (c_info O C)).
+    + inversion H; subst. exact Hwf.
+    + inversion H; subst. clear H.
+      pose proof (wf_col_not_id _ _ _ (Hwf _ _ Ef) Ec) as Hcid.
+      destruct (Hwf _ _ Ef) as [Hnd [Hnoid Hnorm]].
+      apply wf_state_put; [exact Hwf | cbn [t_id]; exact (find_table_id _ _ _ Ef) |].
+      split; [cbn [t_cols]; rewrite map_app; cbn [map]; rewrite col_set_many_id; cbn [c_id];
+              rewrite nodup_names_snoc, drop_col_ids; rewrite nodup_names_filter by exact Hnd; cbn;
+              rewrite <- drop_col_ids, nmem_drop_self; reflexivity|].
+      split; [cbn [t_cols]; rewrite map_app, nmem_app, drop_col_ids; rewrite nmem_false_filter by exact Hnoid; cbn [map nmem orb];
+              rewrite col_set_many_id; cbn [c_id];
+              assert (name_eqb id_name c = false) as -> by (apply name_eqb_neq; congruence); reflexivity|].
+      cbn [t_cols t_rows]. intros c0 C' Hf r Hr. rewrite find_app_col, find_drop_col in Hf.
+      rewrite col_set_many_id in Hf. cbn [c_id] in Hf.
+      destruct (name_eqb c0 c) eqn:E0.
+      * inversion Hf; subst C'. rewrite col_get_set_many, set_val_map, (proj2 (zmem_In _ _) Hr).
+        rewrite col_set_many_info. cbn [c_info]. apply (vnorm_idem L).
+      * destruct (find_col O (t_cols O T) c0) as [C0|] eqn:Ec0; [|discriminate].
+        inversion Hf; subst C'. apply (Hnorm _ _ Ec0). exact Hr.
+  - (* AddTable *)
+    destruct (find_table O s t) eqn:Ef; [discriminate|].
+    destruct (negb (nodup_names (map fst cols)) || nmem id_name (map fst cols)) eqn:Ed; [discriminate|].
+    inversion H; subst. clear H. apply orb_false_iff in Ed. destruct Ed as [Ed1 Ed2]. apply negb_false_iff in Ed1.
+    intros t0 T0 Hf. rewrite find_app_table in Hf.
+    destruct (find_table O s t0) eqn:E0; [inversion Hf; subst; eapply Hwf; exact E0|].
+    cbn [t_id] in Hf. destruct (name_eqb t0 t); inversion Hf; subst T0. cbn.
+    assert (map (c_id O) (map (fun ci : name * colinfo => mkCol O (fst ci) (snd ci) []) cols) = map fst cols) as Hids
+      by (rewrite map_map; reflexivity).
+    split; [cbn; rewrite Hids; exact Ed1|]. split; [cbn; rewrite Hids; exact Ed2|]. intros c C _ r [].
+  - (* RemoveTable *)
+    destruct (find_table O s t) as [T|] eqn:Ef; [|discriminate].
+    assert (s' = drop_table O s t) by (destruct (t_rows O T); inversion H; reflexivity). subst s'.
+    intros t0 T0 Hf. rewrite find_drop_table in Hf. destruct (name_eqb t0 t); [discriminate|]. eapply Hwf. exact Hf.
+  - (* RenameTable *)
+    destruct (find_table O s old) as [T|] eqn:Ef; [|discriminate].
+    destruct (find_table O s new) eqn:En; [discriminate|]. inversion H; subst. clear H.
+    intros t0 T0 Hf. rewrite find_app_table, find_drop_table in Hf. destruct (name_eqb t0 old).
+    + cbn [t_id] in Hf. destruct (name_eqb t0 new); inversion Hf; subst T0.
+      destruct (Hwf _ _ Ef) as [Hnd [Hnoid Hnorm]]. split; [exact Hnd|]. split; [exact Hnoid|]. exact Hnorm.
+    + destruct (find_table O s t0) eqn:E0; [inversion Hf; subst; eapply Hwf; exact E0|].
+      cbn [t_id] in Hf. destruct (name_eqb t0 new); inversion Hf; subst T0.
+      destruct (Hwf _ _ Ef) as [Hnd [Hnoid Hnorm]]. split; [exact Hnd|]. split; [exact Hnoid|]. exact Hnorm.
+Qed.
+
+
+(* ------------------------------------------------------------------------------------------------ *)
+(* sequences of doc actions *)
+
+Fixpoint run_docs (s : state) (acts : list action) : res (state * list action) :=
+  match acts with
+  | [] => Ok (s, [])
+  | a :: rest =>
+      match apply_doc O a s with
+      | Err e => Err e
+      | Ok (s1, (u, _)) =>
+          match run_docs s1 rest with
+          | Err e => Err e
+          | Ok (s2, U) => Ok (s2, u ++ U)
+          end
+      end
+  end.
+
+(* the cells (in coordinates of the start document) that the undo list of the sequence does not restore *)
+Fixpoint loss_docs (s : state) (acts : list action) : cellset :=
+  match acts with
+  | [] => no_cells
+  | a :: rest =>
+      match apply_doc O a s with
+      | Err _ => no_cells
+      | Ok (s1, (u, _)) => fun t c r => img_list (rev u) (loss_docs s1 rest) t c r \/ lossy a s t c r
+      end
+  end.
+
+Lemma run_docs_wf : forall acts s s' U, wf_state s -> run_docs s acts = Ok (s', U) -> wf_state s'.
+Proof.
+  induction acts as [|a rest IH]; intros s s' U Hwf H; cbn in H.
+  - inversion H; subst. exact Hwf.
+  - destruct (apply_doc O a s) as [[s1 [u ops]]|] eqn:Ea; [|discriminate].
+    destruct (run_docs s1 rest) as [[s2 U']|] eqn:Er; [|discriminate]. inversion H; subst.
+    eapply IH; [|exact Er]. eapply apply_doc_wf; eassumption.
+Qed.
+
+Theorem docs_undo : forall acts s s' U,
+  wf_state s -> run_docs s acts = Ok (s', U) ->
+  exists s'', replay_doc O (rev U) s' = Ok s'' /\ seq_ex (loss_docs s acts) s'' s.
+Proof.
+  induction acts as [|a rest IH]; intros s s' U Hwf H; cbn in H.
+  - inversion H; subst. cbn. exists s'. split; [reflexivity | apply seq_ex_refl].
+  - cbn [loss_docs]. destruct (apply_doc O a s) as [[s1 [u ops]]|] eqn:Ea; [|discriminate].
+    destruct (run_docs s1 rest) as [[s2 U']|] eqn:Er; [|discriminate]. inversion H; subst s2 U. clear H.
+    pose proof (apply_doc_wf _ _ _ _ Hwf Ea) as Hwf1.
+    destruct (IH _ _ _ Hwf1 Er) as [s1'' [Hrep1 Hseq1]].
+    destruct (undo_inverse a s Hwf _ _ _ Ea) as [s0'' [Hrep0 Hseq0]].
+    apply seq_ex_sym in Hseq1.
+    destruct (replay_doc_cong _ _ _ _ _ Hseq1 Hrep0) as [sx [Hrepx Hseqx]].
+    exists sx. split.
+    + rewrite rev_app_distr, replay_doc_app, Hrep1. exact Hrepx.
+    + apply seq_ex_sym in Hseqx. eapply seq_ex_trans; eassumption.
+Qed.
+
+Fixpoint lossless_run (s : state) (acts : list action) : Prop :=
+  match acts with
+  | [] => True
+  | a :: rest =>
+      (forall t c r, ~ lossy a s t c r) /\
+      match apply_doc O a s with
+      | Ok (s1, _) => lossless_run s1 rest
+      | Err _ => True
+      end
+  end.
+
+Lemma lossless_loss_docs : forall acts s, lossless_run s acts -> forall t c r, ~ loss_docs s acts t c r.
+Proof.
+  induction acts as [|a rest IH]; intros s H t c r Hl; cbn in *; [exact Hl|].
+  destruct H as [Hno Hrest]. destruct (apply_doc O a s) as [[s1 [u ops]]|]; [|exact Hl].
+  destruct Hl as [Hl|Hl]; [|exact (Hno _ _ _ Hl)].
+  eapply img_list_empty; [|exact Hl]. intros t' c' r'. apply IH. exact Hrest.
+Qed.
+
+Theorem docs_undo_exact : forall acts s s' U,
+  wf_state s -> lossless_run s acts -> run_docs s acts = Ok (s', U) ->
+  exists s'', replay_doc O (rev U) s' = Ok s'' /\ seq s'' s.
+Proof.
+  intros acts s s' U Hwf Hl H. destruct (docs_undo _ _ _ _ Hwf H) as [s'' [Hr Hs]].
+  exists s''. split; [exact Hr|]. eapply seq_ex_weaken; [|exact Hs].
+  intros t c r Hx. exfalso. eapply lossless_loss_docs; eassumption.
+Qed.
+
+(* redo: the stored doc actions are the actions themselves *)
+Theorem docs_redo : forall acts s s' U s0,
+  run_docs s acts = Ok (s', U) -> seq s0 s ->
+  exists s1, replay_doc O acts s0 = Ok s1 /\ seq s1 s'.
+Proof.
+  induction acts as [|a rest IH]; intros s s' U s0 H Hs; cbn in H.
+  - inversion H; subst. exists s0. split; [reflexivity | exact Hs].
+  - destruct (apply_doc O a s) as [[s1 [u ops]]|] eqn:Ea; [|discriminate].
+    destruct (run_docs s1 rest) as [[s2 U']|] eqn:Er; [|discriminate]. inversion H; subst s2 U. clear H.
+    apply seq_ex_sym in Hs. destruct (apply_doc_cong _ _ _ _ _ _ Hs Ea) as [s0' [o0 [Ea0 Hs0]]].
+    assert (Hs0' : seq s0' s1).
+    { apply seq_ex_sym. eapply seq_ex_weaken; [|exact Hs0]. intros t c r Hx. exfalso. eapply img_empty; [|exact Hx]. intros ? ? ? []. }
+    destruct (IH _ _ _ _ Er Hs0') as [s1' [Hr Hs1]].
+    exists s1'. split; [|exact Hs1]. cbn. rewrite Ea0. cbn. exact Hr.
+Qed.
+
+
+(* ------------------------------------------------------------------------------------------------ *)
+(* bundles made of doc actions only: the summary never holds a delta and the final flush adds nothing *)
+
+Definition sum_nodeltas (sm : summary O) : Prop :=
+  forall t td, td_find O (sm_tables O sm) t = Some td -> td_deltas O td = [].
+
+Lemma td_find_del : forall l t t', td_find O (td_del O l t) t' = if name_eqb t' t then None else td_find O l t'.
+Proof.
+  induction l as [|[t0 d0] l IH]; intros t t'; cbn.
+  - destruct (name_eqb t' t); reflexivity.
+  - name_cases t t0.
+    + subst t0. rewrite IH. name_cases t' t; reflexivity.
+    + cbn. name_cases t' t0.
+      * subst t'. assert (name_eqb t0 t = false) as -> by (apply name_eqb_neq; congruence). reflexivity.
+      * apply IH.
+Qed.
+
+Lemma td_find_put : forall l t d t', td_find O (td_put O l t d) t' = if name_eqb t' t then Some d else td_find O (td_del O l t) t'.
+Proof. intros l t d t'. unfold td_put. cbn. reflexivity. Qed.
+
+Lemma nodeltas_with_table : forall sm t d, sum_nodeltas sm -> td_deltas O d = [] -> sum_nodeltas (with_table O sm t d).
+Proof.
+  intros sm t d H Hd t' td Hf. unfold with_table in Hf. cbn [sm_tables] in Hf. rewrite td_find_put, td_find_del in Hf.
+  destruct (name_eqb t' t); [inversion Hf; subst; exact Hd | eapply H; exact Hf].
+Qed.
+
+Lemma nodeltas_for_table : forall sm t, sum_nodeltas sm -> td_deltas O (for_table O sm t) = [].
+Proof.
+  intros sm t H. unfold for_table. destruct (td_find O (sm_tables O sm) t) eqn:E; [eapply H; exact E | reflexivity].
+Qed.
+
+Definition not_changes (op : sumop O) : Prop := match op with SAddChanges _ _ _ _ => False | _ => True end.
+
+Lemma fold_pres_deltas : forall (f : tdelta O -> Z -> tdelta O) rows d,
+  (forall d r, td_deltas O (f d r) = td_deltas O d) -> td_deltas O (fold_left f rows d) = td_deltas O d.
+Proof.
+  intros f rows. induction rows as [|r rows IH]; intros d Hf; cbn; [reflexivity|]. rewrite IH by exact Hf. apply Hf.
+Qed.
+
+Lemma sum_apply_nodeltas : forall sm op, sum_nodeltas sm -> not_changes op -> sum_nodeltas (sum_apply O sm op).
+Proof.
+  intros sm op H Hop. destruct op; cbn [sum_apply]; try contradiction.
+  - apply nodeltas_with_table; [exact H|]. rewrite fold_pres_deltas by reflexivity. apply nodeltas_for_table. exact H.
+  - apply nodeltas_with_table; [exact H|]. rewrite fold_pres_deltas by reflexivity. apply nodeltas_for_table. exact H.
+  - apply nodeltas_with_table; [exact H|]. cbn [td_deltas]. rewrite (nodeltas_for_table _ t H).
+    destruct old; reflexivity.
+  - intros t' td Hf. cbn [sm_tables] in Hf. destruct old as [o|]; [|eapply H; exact Hf].
+    destruct (td_find O (sm_tables O sm) o) as [d|] eqn:Eo; [|eapply H; exact Hf].
+    rewrite td_find_put, !td_find_del in Hf. destruct (name_eqb t' new); [inversion Hf; subst; eapply H; exact Eo|].
+    destruct (name_eqb t' o); [discriminate | eapply H; exact Hf].
+Qed.
+
+Lemma fold_sum_apply_nodeltas : forall ops sm, sum_nodeltas sm -> Forall not_changes ops ->
+  sum_nodeltas (fold_left (sum_apply O) ops sm).
+Proof.
+  induction ops as [|op ops IH]; intros sm H Hf; cbn; [exact H|]. inversion Hf; subst.
+  apply IH; [apply sum_apply_nodeltas; assumption | assumption].
+Qed.
+
+Lemma flush_all_nodeltas : forall sm so, sum_nodeltas sm -> flush_all O sm so = Ok so.
+Proof.
+  intros sm so H. unfold flush_all. generalize (sorted_keys (sm_tables O sm)). intro keys.
+  induction keys as [|t keys IH]; cbn; [reflexivity|].
+  assert (flush_table O sm t so = Ok so) as ->; [|exact IH].
+  unfold flush_table. destruct (td_find O (sm_tables O sm) t) as [td|] eqn:E; [|reflexivity].
+  rewrite (H _ _ E). reflexivity.
+Qed.
+
+Lemma lossless_not_changes : forall a s s' u ops,
+  apply_doc O a s = Ok (s', (u, ops)) -> (forall t c r, ~ lossy a s t c r) -> Forall not_changes ops.
+Proof.
+  intros a s s' u ops H Hl. destruct a; unfold apply_doc in H.
+  - destruct (find_table O s t); [|discriminate]. destruct (_ || _); [discriminate|].
+    destruct (negb _); [discriminate|]. destruct (add_records O t0 rows cols); cbn in H; [|discriminate].
+    inversion H; subst. repeat constructor.
+  - destruct (find_table O s t); [|discriminate]. destruct (filter _ rows); inversion H; subst; repeat constructor.
+  - destruct (find_table O s t); [|discriminate]. destruct (_ || _); [discriminate|].
+    destruct (negb _); [discriminate|]. destruct (old_values O _ rows cols); cbn in H; [|discriminate].
+    destruct (set_columns O _ rows cols); cbn in H; [|discriminate]. inversion H; subst. constructor.
+  - destruct (find_table O s t); [|discriminate]. destruct (negb _); [discriminate|].
+    destruct (add_records O _ rows _); cbn in H; [|discriminate]. inversion H; subst. repeat constructor.
+  - destruct (find_table O s t); [|discriminate]. destruct (has_column O t0 c); [discriminate|].
+    inversion H; subst. repeat constructor.
+  - destruct (find_table O s t) as [T|] eqn:Ef; [|discriminate].
+    destruct (find_col O (t_cols O T) c) as [C|] eqn:Ec; [|discriminate].
+    destruct (filter _ _); [inversion H; subst; repeat constructor|].
+    destruct (ci_isformula (c_info O C)) eqn:Eform; [|inversion H; subst; repeat constructor].
+    exfalso. apply (Hl t c 0). cbn. split; [reflexivity|]. split; [reflexivity|]. exists T, C. auto.
+  - destruct (find_table O s t); [|discriminate]. destruct (find_col O _ old); [|discriminate].
+    destruct (has_column O t0 new); [discriminate|]. inversion H; subst. repeat constructor.
+  - destruct (find_table O s t); [|discriminate]. destruct (find_col O _ c); [|discriminate].
+    destruct (colinfo_eqb _ _); inversion H; subst; constructor.
+  - destruct (find_table O s t); [discriminate|]. destruct (_ || _); [discriminate|].
+    inversion H; subst. repeat constructor.
+  - destruct (find_table O s t); [|discriminate]. destruct (t_rows O t0); inversion H; subst; repeat constructor.
+  - destruct (find_table O s old); [|discriminate]. destruct (find_table O s new); [discriminate|].
+    inversion H; subst. repeat constructor.
+Qed.
+
+Lemma steps_docs : forall acts s S U sm m',
+  sum_nodeltas sm -> lossless_run s acts ->
+  steps O (mkM O s S U sm) (map (Doc O) acts) = Ok m' ->
+  exists U', run_docs s acts = Ok (m_doc O m', U') /\ m_undo O m' = U ++ U' /\
+             m_stored O m' = S ++ acts /\ sum_nodeltas (m_sum O m').
+Proof.
+  induction acts as [|a rest IH]; intros s S U sm m' Hnd Hl H; cbn in H.
+  - inversion H; subst. cbn. exists []. rewrite !app_nil_r. auto.
+  - cbn [m_doc] in H. destruct (apply_doc O a s) as [[s1 [u ops]]|] eqn:Ea; cbn in H; [|discriminate].
+    cbn in Hl. destruct Hl as [Hno Hrest]. rewrite Ea in Hrest.
+    destruct (IH _ _ _ _ _ (fold_sum_apply_nodeltas _ _ Hnd (lossless_not_changes _ _ _ _ _ Ea Hno)) Hrest H)
+      as [U' [Hrun [Hu [Hs Hsm]]]].
+    exists (u ++ U'). cbn. rewrite Ea, Hrun. split; [reflexivity|].
+    split; [rewrite Hu, app_assoc; reflexivity|]. split; [rewrite Hs, <- app_assoc; reflexivity | exact Hsm].
+Qed.
+
+Lemma steps_app : forall es1 es2 m,
+  steps O m (es1 ++ es2) = match steps O m es1 with Ok m1 => steps O m1 es2 | Err e => Err e end.
+Proof.
+  induction es1 as [|e es1 IH]; intros es2 m; cbn; [reflexivity|].
+  destruct (step O m e); cbn; [apply IH | reflexivity].
+Qed.
+
+Lemma sum_empty_nodeltas : sum_nodeltas (sum_empty O).
+Proof. intros t td H. cbn in H. discriminate. Qed.
+
+Theorem run_docs_only : forall acts s s' out,
+  lossless_run s acts -> run O s (map (Doc O) acts) = Ok (s', out) ->
+  run_docs s acts = Ok (s', o_undo O out) /\ o_stored O out = acts.
+Proof.
+  intros acts s s' out Hl H. unfold run in H. rewrite steps_app in H.
+  destruct (steps O (mkM O s [] [] (sum_empty O)) (map (Doc O) acts)) as [m1|] eqn:E1; [|discriminate].
+  destruct (steps_docs _ _ _ _ _ _ sum_empty_nodeltas Hl E1) as [U' [Hrun [Hu [Hs Hsm]]]].
+  cbn [steps step] in H. rewrite (flush_all_nodeltas _ _ Hsm) in H. cbn in H. inversion H; subst. cbn.
+  rewrite Hu, Hs. cbn. split; [exact Hrun | reflexivity].
+Qed.
+
+
+(* ------------------------------------------------------------------------------------------------ *)
+(* histories: bundle after bundle, then undone bundle by bundle in reverse *)
+
+Fixpoint run_history (s : state) (bs : list (list (event O))) : res (state * list (list action)) :=
+  match bs with
+  | [] => Ok (s, [])
+  | es :: rest =>
+      match run O s es with
+      | Err e => Err e
+      | Ok (s1, out) =>
+          match run_history s1 rest with
+          | Err e => Err e
+          | Ok (s2, us) => Ok (s2, o_undo O out :: us)
+          end
+      end
+  end.
+
+(* us: the undo lists of the bundles in the order the bundles ran; the last bundle is undone first *)
+Fixpoint undo_history (us : list (list action)) (s : state) : res state :=
+  match us with
+  | [] => Ok s
+  | U :: rest => match undo_history rest s with Ok s1 => replay_doc O (rev U) s1 | Err e => Err e end
+  end.
+
+Definition bundle_undo_ok (s : state) (es : list (event O)) : Prop :=
+  forall s' out, run O s es = Ok (s', out) ->
+  exists s'', replay_doc O (rev (o_undo O out)) s' = Ok s'' /\ seq s'' s.
+
+Fixpoint bundles_ok (s : state) (bs : list (list (event O))) : Prop :=
+  match bs with
+  | [] => True
+  | es :: rest =>
+      bundle_undo_ok s es /\
+      match run O s es with Ok (s1, _) => bundles_ok s1 rest | Err _ => True end
+  end.
+
+Theorem history_undo : forall bs s s' us,
+  bundles_ok s bs -> run_history s bs = Ok (s', us) ->
+  exists s'', undo_history us s' = Ok s'' /\ seq s'' s.
+Proof.
+  induction bs as [|es rest IH]; intros s s' us Hok H; cbn in H.
+  - inversion H; subst. cbn. exists s'. split; [reflexivity | apply seq_ex_refl].
+  - destruct (run O s es) as [[s1 out]|] eqn:Er; [|discriminate].
+    destruct (run_history s1 rest) as [[s2 us']|] eqn:Eh; [|discriminate]. inversion H; subst s2 us. clear H.
+    cbn in Hok. destruct Hok as [Hb Hrest]. rewrite Er in Hrest.
+    destruct (IH _ _ _ Hrest Eh) as [s1'' [Hu1 Hs1]].
+    destruct (Hb _ _ Er) as [s0'' [Hr0 Hs0]].
+    apply seq_ex_sym in Hs1. destruct (replay_doc_cong_seq _ _ _ _ Hs1 Hr0) as [sx [Hrx Hsx]].
+    exists sx. split; [cbn; rewrite Hu1; exact Hrx|].
+    apply seq_ex_sym in Hsx. eapply seq_trans; eassumption.
+Qed.
+
+Theorem doc_bundle_undo_ok : forall s acts,
+  wf_state s -> lossless_run s acts -> bundle_undo_ok s (map (Doc O) acts).
+Proof.
+  intros s acts Hwf Hl s' out H. destruct (run_docs_only _ _ _ _ Hl H) as [Hrun _].
+  eapply docs_undo_exact; eassumption.
+Qed.
+
+Theorem doc_bundle_redo : forall s acts s' out s0,
+  wf_state s -> lossless_run s acts -> run O s (map (Doc O) acts) = Ok (s', out) ->
+  replay_doc O (rev (o_undo O out)) s' = Ok s0 ->
+  exists s1, replay_doc O (o_stored O out) s0 = Ok s1 /\ seq s1 s'.
+Proof.
+  intros s acts s' out s0 Hwf Hl H Hundo. destruct (run_docs_only _ _ _ _ Hl H) as [Hrun Hst].
+  destruct (docs_undo_exact _ _ _ _ Hwf Hl Hrun) as [s'' [Hr Hs]].
+  assert (s'' = s0) by congruence. subst s''. rewrite Hst. eapply docs_redo; eassumption.
+Qed.
+
+
+(* a decidable sufficient condition for `lossless_run` (used by the examples) *)
+Definition no_loss_b (a : action) (s : state) : bool :=
+  match a with
+  | RemoveColumn _ t c =>
+      match find_table O s t with
+      | Some T => match find_col O (t_cols O T) c with Some C => negb (ci_isformula (c_info O C)) | None => true end
+      | None => true
+      end
+  | ReplaceTableData _ t _ _ =>
+      match find_table O s t with
+      | Some T => forallb (fun C => negb (ci_isformula (c_info O C))) (t_cols O T)
+      | None => true
+      end
+  | ModifyColumn _ t c m =>
+      match find_table O s t with
+      | Some T => match find_col O (t_cols O T) c with
+                  | Some C => name_eqb (ci_type (apply_modinfo m (c_info O C))) (ci_type (c_info O C))
+                  | None => true end
+      | None => true
+      end
+  | _ => true
+  end.
+
+Lemma no_loss_b_sound : forall a s, no_loss_b a s = true -> forall t c r, ~ lossy a s t c r.
+Proof.
+  intros a s H t c r Hl. destruct a; cbn in *; try exact Hl.
+  - destruct Hl as [-> [T [C [Hf [Hc Hform]]]]]. rewrite Hf in H. rewrite forallb_forall in H.
+    specialize (H C (find_col_In _ _ _ Hc)). rewrite Hform in H. discriminate.
+  - destruct Hl as [-> [-> [T [C [Hf [Hc Hform]]]]]]. rewrite Hf, Hc, Hform in H. discriminate.
+  - destruct Hl as [-> [-> [T [C [Hf [Hc Hty]]]]]]. rewrite Hf, Hc in H. apply name_eqb_eq in H. contradiction.
+Qed.
+
+Fixpoint lossless_runb (s : state) (acts : list action) : bool :=
+  match acts with
+  | [] => true
+  | a :: rest =>
+      no_loss_b a s && match apply_doc O a s with Ok (s1, _) => lossless_runb s1 rest | Err _ => true end
+  end.
+
+Lemma lossless_runb_sound : forall acts s, lossless_runb s acts = true -> lossless_run s acts.
+Proof.
+  induction acts as [|a rest IH]; intros s H; cbn in *; [exact I|].
+  apply andb_true_iff in H. destruct H as [H1 H2]. split; [apply no_loss_b_sound; exact H1|].
+  destruct (apply_doc O a s) as [[s1 o]|]; [apply IH; exact H2 | exact I].
+Qed.
+
 End Proofs.
